@@ -91,6 +91,17 @@ def lin(t) -> Lin:
                 return b.scale(a.const)
             if b.is_const():
                 return a.scale(b.const)
+            # (sum) * leaf distributes over the sum: (x - y) * d is x*d - y*d  (one factor a single leaf with coefficient 1)
+            for s_, f_ in ((a, b), (b, a)):
+                if len(f_.coef) == 1 and f_.const == 0 and list(f_.coef.values())[0] == 1 and (len(s_.coef) > 1 or s_.const != 0):
+                    leaf = list(f_.coef)[0]
+                    r = Lin()
+                    for x_, c_ in s_.coef.items():
+                        fs = sorted([x_, leaf], key=show)
+                        r = r.add(Lin({app("*", *fs): c_}))
+                    if s_.const != 0:
+                        r = r.add(Lin({leaf: s_.const}))
+                    return r
             # product of two non constants: opaque monomial, factors sorted
             fs = sorted([norm(t[2]), norm(t[3])], key=show)
             return Lin({app("*", *fs): Fraction(1)})
